@@ -68,6 +68,7 @@ impl Drop for MuxStream {
             .send(crate::DroppedFlow {
                 flow_id: self.flow_id,
                 finish_sent: self.finish_sent.clone(), // cheap
+                unread: !self.buf.is_empty() || !self.rx_frame_rx.is_empty(),
             })
             // Maybe the task has already exited, who knows
             .ok();
